@@ -25,7 +25,7 @@ class Query:
     def __init__(self, name, harness, units, models=('alloc', 'jansson_model', 'env', 'provider_stub'),
                  defines=(), unwind=None, unwindset=None, checks='verdict', budget=300,
                  solver='cadical', extra=(), entry=None, remove_bodies=(), tiers=('quick', 'thorough'),
-                 mem_gb=12, desc='', bounds=None, expect_fail=()):
+                 mem_gb=6, desc='', bounds=None, expect_fail=()):
         self.name = name
         self.harness = harness
         self.units = list(units)
@@ -49,11 +49,35 @@ class Query:
 
 
 def _limit(mem_gb):
+    # No RLIMIT_AS: a solver whose malloc fails mid-run was seen to end with cProverStatus "error"
+    # while still printing (garbage) FAILURE verdicts for the remaining properties.  Memory is
+    # policed from outside (run_query polls the resident set size of the process group and kills
+    # it), which yields a clean 'oom' = no verdict.
     def f():
-        lim = int(mem_gb * (1 << 30))
-        resource.setrlimit(resource.RLIMIT_AS, (lim, lim))
         os.setsid()
     return f
+
+
+def _rss_kb(pgid):
+    tot = 0
+    try:
+        for p in os.listdir('/proc'):
+            if not p.isdigit():
+                continue
+            try:
+                with open('/proc/%s/stat' % p) as f:
+                    st = f.read().rsplit(')', 1)[1].split()
+                if int(st[2]) != pgid:        # process group id
+                    continue
+                with open('/proc/%s/status' % p) as f:
+                    for line in f:
+                        if line.startswith('VmRSS:'):
+                            tot += int(line.split()[1])
+            except (OSError, ValueError, IndexError):
+                continue
+    except OSError:
+        pass
+    return tot
 
 
 def cbmc_flags(q):
@@ -128,6 +152,22 @@ def run_query(bld, q, trace=False, only_property=None):
     try:
         p = subprocess.Popen(['/usr/bin/time', '-f', 'VFRSS=%M'] + cmd, stdout=subprocess.PIPE, stderr=subprocess.PIPE,
                              text=True, preexec_fn=_limit(q.mem_gb))
+        import threading
+        killed = {}
+
+        def watchdog():
+            lim = q.mem_gb * (1 << 20)
+            while p.poll() is None:
+                if _rss_kb(p.pid) > lim:
+                    killed['oom'] = True
+                    try:
+                        os.killpg(p.pid, 9)
+                    except ProcessLookupError:
+                        pass
+                    return
+                time.sleep(2)
+        th = threading.Thread(target=watchdog, daemon=True)
+        th.start()
         try:
             out, err = p.communicate(timeout=q.budget)
         except subprocess.TimeoutExpired:
@@ -137,6 +177,11 @@ def run_query(bld, q, trace=False, only_property=None):
                 pass
             p.communicate()
             res['status'] = 'timeout'
+            res['wall_s'] = time.time() - t0
+            return res
+        if killed.get('oom'):
+            res['status'] = 'oom'
+            res['error'] = 'resident set exceeded %d GB: killed, no verdict' % q.mem_gb
             res['wall_s'] = time.time() - t0
             return res
     except OSError as e:
@@ -177,6 +222,10 @@ def run_query(bld, q, trace=False, only_property=None):
         res['error'] = 'no result block (rc=%s): %s' % (p.returncode, '; '.join(errors)[-1500:] or out[-800:])
         return res
     res['cprover_status'] = status
+    if status == 'error':
+        res['status'] = 'error'
+        res['error'] = 'cbmc ended with cProverStatus error: ' + '; '.join(errors)[-800:]
+        return res
     for pr in props:
         d = {'id': pr.get('property'), 'desc': pr.get('description', ''), 'status': pr.get('status'),
              'loc': pr.get('sourceLocation', {})}
@@ -241,13 +290,32 @@ def classify(res, q):
         res['status'] = 'pass'
 
 
+MEM_BUDGET_GB = int(os.environ.get('VF_MEM_GB', '48'))
+
+
 def run_all(bld, queries, jobs=None):
-    # SAT solving is single-threaded: one process per query, as many as cores (capped by memory)
-    jobs = jobs or min(16, max(1, len(queries)))
+    """SAT solving is single-threaded: one process per query, up to 16 at a time, admitted under a
+    global memory budget (each query reserves its mem_gb cap; it is killed when it exceeds it)."""
     import sys
+    import threading
+    jobs = jobs or min(16, max(1, len(queries)))
+    cv = threading.Condition()
+    state = {'free': MEM_BUDGET_GB}
+
     def one(q):
-        r = run_query(bld, q)
-        sys.stderr.write('[%s] %s %s %.0fs\n' % (time.strftime('%H:%M:%S'), r['name'], r['status'], r.get('wall_s', 0)))
+        need = min(q.mem_gb, MEM_BUDGET_GB)
+        with cv:
+            while state['free'] < need:
+                cv.wait()
+            state['free'] -= need
+        try:
+            r = run_query(bld, q)
+        finally:
+            with cv:
+                state['free'] += need
+                cv.notify_all()
+        sys.stderr.write('[%s] %s %s %.0fs rss=%sMB\n' % (time.strftime('%H:%M:%S'), r['name'], r['status'], r.get('wall_s', 0),
+                                                     (r.get('peak_rss_kb') or 0) // 1024))
         sys.stderr.flush()
         return r
     with ThreadPoolExecutor(max_workers=jobs) as ex:
